@@ -24,6 +24,8 @@ pub enum PlanKind {
     SlowWriter,
     ReverseWorkers,
     SlowMain,
+    /// every compression takes longer than 100 ms (the first dozen compressed clusters)
+    VerySlowWorkers,
 }
 
 #[derive(Serialize, Deserialize, Clone, Debug, PartialEq, Eq)]
@@ -49,10 +51,14 @@ struct Perturb {
     workers: Mutex<std::collections::BTreeSet<String>>,
     first_comp: Mutex<Option<u32>>,
     nclusters: Mutex<u32>,
+    slow_budget: std::sync::atomic::AtomicI64,
 }
 
 impl Perturb {
     fn nap(&self, site: u32, idx: u32) {
+        self.nap2(site, idx, false)
+    }
+    fn nap2(&self, site: u32, idx: u32, compressed: bool) {
         let h = splitmix((self.plan.seed as u64) << 32 | (site as u64) << 24 | idx as u64);
         let us = match self.plan.kind {
             PlanKind::None => 0,
@@ -91,6 +97,13 @@ impl Perturb {
                     0
                 }
             }
+            PlanKind::VerySlowWorkers => {
+                if site == 1 && compressed && self.slow_budget.fetch_sub(1, std::sync::atomic::Ordering::Relaxed) > 0 {
+                    130_000
+                } else {
+                    0
+                }
+            }
         };
         match us {
             0 => {}
@@ -116,7 +129,7 @@ impl jbk::creator::Progress for Perturb {
             let name = std::thread::current().name().unwrap_or("?").to_string();
             self.workers.lock().unwrap().insert(name);
         }
-        self.nap(1, idx);
+        self.nap2(1, idx, compressed);
     }
     fn handle_cluster_written(&self, idx: u32) {
         self.written.lock().unwrap().push(idx);
@@ -186,7 +199,7 @@ impl Property for C08 {
     fn cases(tier: Tier) -> u32 {
         match tier {
             Tier::Quick => 224,
-            Tier::Thorough => 2400,
+            Tier::Thorough => 6000,
         }
     }
 
@@ -207,6 +220,7 @@ impl Property for C08 {
                 2 => Just(PlanKind::SlowWriter),
                 2 => Just(PlanKind::ReverseWorkers),
                 1 => Just(PlanKind::SlowMain),
+                1 => Just(PlanKind::VerySlowWorkers),
             ],
             any::<u32>(),
             prop_oneof![2 => Just(1u8), 2 => Just(2u8), 2 => Just(3u8), 1 => Just(4u8), 2 => Just(8u8), 2 => Just(15u8), 1 => 1u8..=15],
@@ -219,7 +233,7 @@ impl Property for C08 {
     }
 
     fn required_classes(_tier: Tier) -> Vec<&'static str> {
-        vec!["orders-differ", "raw+compressed", "workers:1", "workers>=7", "queue-longer-than-limit", "clusters>=6"]
+        vec!["plan:VerySlowWorkers", "orders-differ", "raw+compressed", "workers:1", "workers>=7", "queue-longer-than-limit", "clusters>=6"]
     }
 
     fn run(case: &Case, ctx: &Ctx) -> CaseResult {
@@ -232,7 +246,7 @@ impl Property for C08 {
             let path = ctx.utf8("c08.jbkc");
             let _ = std::fs::remove_file(&path);
             let old = set_affinity(plan.cpus as usize);
-            let perturb = Arc::new(Perturb { plan: plan.clone(), written: Mutex::new(vec![]), workers: Mutex::new(Default::default()), first_comp: Mutex::new(None), nclusters: Mutex::new(0) });
+            let perturb = Arc::new(Perturb { plan: plan.clone(), written: Mutex::new(vec![]), workers: Mutex::new(Default::default()), first_comp: Mutex::new(None), nclusters: Mutex::new(0), slow_budget: std::sync::atomic::AtomicI64::new(12) });
             let progress: Arc<dyn jbk::creator::Progress> = perturb.clone();
             let created = (|| -> Result<Vec<jbk::ContentAddress>, Failure> {
                 let mut creator = match jbk::creator::ContentPackCreator::new_with_progress(&path, jbk::PackId::from(1), vendor(), Default::default(), case.comp.to_jbk(), progress) {
@@ -262,6 +276,7 @@ impl Property for C08 {
                 ensure!(nworkers <= expected_workers, "harness-worker-count", "harness: {nworkers} worker threads seen with {} cpus", plan.cpus);
             }
             info.class(format!("workers:{}", expected_workers.min(7)).replace("workers:7", "workers>=7"));
+            info.class(format!("plan:{:?}", plan.kind));
             let order = perturb.written.lock().unwrap().clone();
             let nclusters = *perturb.nclusters.lock().unwrap();
             if nclusters >= 6 {
@@ -294,6 +309,17 @@ impl Property for C08 {
                         let raw = cp.clusters.iter().filter(|c| c.comp == 0).count();
                         if raw > 0 && raw < cp.clusters.len() {
                             info.class("raw+compressed");
+                        }
+                        // whatever the schedule, the hint decides how a content is stored (C16's oracle)
+                        for (i, ((_, h), a)) in items.iter().zip(addrs.iter()).enumerate() {
+                            let (cl, _) = cp.contents[a.content_id.into_u32() as usize];
+                            let nib = cp.clusters[cl as usize].comp;
+                            let want = if *h == Hint::Yes { case.comp.code() } else { 0 };
+                            ensure!(
+                                nib == want,
+                                "hint-vs-storage-under-schedule",
+                                "run {ri} ({plan:?}): insertion #{i} (hint {h:?}) lies in a cluster with compression {nib}, expected {want}"
+                            );
                         }
                         let queued = cp.clusters.len() - raw;
                         if queued > 2 * expected_workers {
